@@ -225,6 +225,25 @@ def flags(ck, ctx):
     C.single_writer(ck, ctx, "flags", "load::Loader", "builddir", ["load::Loader::parse_with_parser"])
     pw = F.body("load::Loader::parse_with_parser")
     strs = Q.body_strings(F, pw)
+    # the file that finishes last (the top-level one: nested parses return first) decides, *also when it sets no builddir*: the field is
+    # overwritten on every successful return with whatever `builddir` is bound to in that file's scope (None included); otherwise the
+    # log location would depend on which subninja/include files a generation of the manifest happens to pull in
+    PWR = ctx.res(pw)
+    pwcfg = ctx.cfg(pw)
+    wr = []
+    for bi in pwcfg.reach:
+        for s_ in pw.blocks[bi]["stmts"]:
+            if s_["k"] == "assign" and s_["place"]["p"] and s_["place"]["p"][-1].get("name") == "builddir" and norm(s_["place"]["p"][-1].get("of", "")) == "load::Loader":
+                wr.append((bi, strip(PWR.stmt_rvalue(bi, s_))))
+    oks_ = [x for x, s_, e_ in C.ok_return_blocks(ctx, pw)]
+    final_oks = [x for x in oks_ if not any(pw.blocks[y]["term"] and pw.blocks[y]["term"]["k"] == "call" and callee_of(pw.blocks[y]["term"]).startswith("parse::Parser::read") for y in pwcfg.reach_avoid([x]))]
+    okbd = len(wr) == 1 and bool(final_oks) and any(pwcfg.dominates(wr[0][0], x) for x in final_oks)
+    if okbd:
+        e_ = wr[0][1]
+        okbd = any(c[1].endswith("Vars::get") for c in calls_in(e_)) and any(y == ("str", '"builddir"') for y in walk(e_)) and (e_[0] == "call" and e_[1].endswith(("Option::cloned", "Option::map", "Option::clone")))
+        # not under a test of the lookup's result
+        okbd = okbd and not any(z[3] == "std::option::Option" and any(c[1].endswith("Vars::get") for c in calls_in(strip(z[2]))) and pwcfg.dominates(z[0], wr[0][0]) for z in Q.enum_switches(ctx, pw))
+    ck.ob("flags", "builddir-last-file-decides", okbd, "parse_with_parser overwrites Loader.builddir unconditionally with vars.get(\"builddir\").cloned() at the end of each file: the top-level file, finishing last, decides even when it sets none", span=pw.loc, fn=pw.nname)
     ck.ob("flags", "builddir-binding", any("builddir" in s for s in strs), "builddir is the top-level `builddir` binding of the manifest", span=pw.loc, fn=pw.nname)
 
 
@@ -244,6 +263,9 @@ def defaults(ck, ctx):
             sw = [z for z in Q.enum_switches(ctx, pw) if z[3] == "parse::Statement"]
             ok = ok and bool(sw) and Q.gated(cfg, bb, {(sw[0][0], sw[0][4].get("Default"))})[0]
     ck.ob("defaults", "collected", ok, "every Statement::Default appends evaluate_paths(its paths) to Loader.default", span=pw.loc, fn=pw.nname)
+    # ... with the paths expanded in the scope of the file the statement is in (`default $outdir/app`)
+    from . import C11 as R11
+    R11.chains(ck, ctx)
     rb = ck.need("fn load::read", F.body("load::read"))
     RR = ctx.res(rb)
     for _, bb, s in [x for x in Q.adt_constructors(F, "load::State") if x[0].nname == rb.nname]:
